@@ -330,7 +330,8 @@ func join(a, b context, node parse.Node, nodeName string) context {
 	// contents of a are always returned.
 	a.element.names = joinNames(a.element.name, b.element.name, a.element.names, b.element.names)
 	a.attr.names = joinNames(a.attr.name, b.attr.name, a.attr.names, b.attr.names)
-	if a.attr.value != b.attr.value {
+	if a.attr.value != b.attr.value || b.attr.ambiguousValue {
+		// The value prefix is also ambiguous if it already was ambiguous at the end of the other branch.
 		a.attr.ambiguousValue = true
 	}
 
